@@ -20,6 +20,7 @@ import (
 type RtpUnpackerAvcHevc struct {
 	payloadType base.AvPacketPt
 	clockRate   int
+	tsExtender  rtpTimestampExtender
 	onAvPacket  OnAvPacket
 }
 
@@ -50,7 +51,7 @@ func (unpacker *RtpUnpackerAvcHevc) TryUnpackOne(list *RtpPacketList) (unpackedF
 	case PositionTypeSingle:
 		var pkt base.AvPacket
 		pkt.PayloadType = unpacker.payloadType
-		pkt.Timestamp = rtpTimestamp2Ms(first.Packet.Header.Timestamp, unpacker.clockRate)
+		pkt.Timestamp = unpacker.tsExtender.toMs(first.Packet.Header.Timestamp, unpacker.clockRate)
 
 		pkt.Payload = make([]byte, len(first.Packet.Body())+4)
 		bele.BePutUint32(pkt.Payload, uint32(len(first.Packet.Body())))
@@ -71,7 +72,7 @@ func (unpacker *RtpUnpackerAvcHevc) TryUnpackOne(list *RtpPacketList) (unpackedF
 
 		var pkt base.AvPacket
 		pkt.PayloadType = unpacker.payloadType
-		pkt.Timestamp = rtpTimestamp2Ms(first.Packet.Header.Timestamp, unpacker.clockRate)
+		pkt.Timestamp = unpacker.tsExtender.toMs(first.Packet.Header.Timestamp, unpacker.clockRate)
 
 		// 跳过前面的字节，并且将多nalu前的2字节长度，替换成4字节长度
 		// skip后：
@@ -129,7 +130,7 @@ func (unpacker *RtpUnpackerAvcHevc) TryUnpackOne(list *RtpPacketList) (unpackedF
 			} else if p.Packet.positionType == PositionTypeFuaEnd {
 				var pkt base.AvPacket
 				pkt.PayloadType = unpacker.payloadType
-				pkt.Timestamp = rtpTimestamp2Ms(p.Packet.Header.Timestamp, unpacker.clockRate)
+				pkt.Timestamp = unpacker.tsExtender.toMs(p.Packet.Header.Timestamp, unpacker.clockRate)
 
 				var naluTypeLen int
 				var naluType []byte
